@@ -363,3 +363,16 @@ def coverage_extra(agg):
     ex = agg["extras"][0] if agg["extras"] else {}
     return {"exhaustive_part": f"all histories up to length {ex.get('exhaustive_len')} over a 12-letter alphabet "
                                "(5 registrations, 7 lookups) x 6 configurations, starting with a registration"}
+
+
+def replay(rec):
+    from ..runner import ReplayCtx
+
+    ctx = ReplayCtx()
+    cfg = rec["case"]["config"]
+    ops = [tuple(tuple(x) if isinstance(x, list) else x for x in o) for o in rec["case"]["ops"]]
+    u = Universe(cfg["depth"], mixed=any("Orders" in str(o) or "Region" in str(o) for o in ops))
+    res = run_history(ctx, (cfg["depth"], cfg["dialect"], cfg["normalize"]), ops, u, u.all_lookups())
+    if res:
+        _report(ctx, (cfg["depth"], cfg["dialect"], cfg["normalize"]), ops, res)
+    return ctx.report()
